@@ -148,9 +148,20 @@ func (t *ImmutableTree) Has(key []byte) (bool, error) {
 	return t.root.has(t, key)
 }
 
+// nextVersion returns the version under which the nodes of t that have not been
+// saved yet will be saved: the configured initial version for the first version
+// of a tree, the successor of t's version otherwise.
+func (t *ImmutableTree) nextVersion() int64 {
+	version := t.version + 1
+	if version == 1 && t.ndb != nil && t.ndb.opts.initialVersionSet {
+		version = int64(t.ndb.opts.InitialVersion) // nolint:gosec // the integer version is always positive
+	}
+	return version
+}
+
 // Hash returns the root hash.
 func (t *ImmutableTree) Hash() []byte {
-	return t.root.hashWithCount(t.version + 1)
+	return t.root.hashWithCount(t.nextVersion())
 }
 
 // Export returns an iterator that exports tree nodes as ExportNodes. These nodes can be
